@@ -225,7 +225,7 @@ int ref_pq_write(ref_arena* a, const ref_write_req* rq, ref_buf* out, ref_pagein
                 ref_buf rep, def, val; ref_buf_init(&rep); ref_buf_init(&def); ref_buf_init(&val);
                 put_levels(c->rep, lpos, pl, c->max_rep, L->level_form, L->level_encoding, !L->v2, &rep);
                 put_levels(c->def, lpos, pl, c->max_def, L->level_form, L->level_encoding, !L->v2, &def);
-                if (dict) { int bw = ref_bit_width((int)(ndict > 0 ? ndict - 1 : 0)) + L->index_bw_extra; if (bw > 32) bw = 32; ref_buf_u8(&val, (uint8_t)bw); ref_hybrid_encode(idx + vpos, pv, bw, L->index_form, &val); }
+                if (dict) { int bw = ref_bit_width((int)(ndict > 0 ? ndict - 1 : 0)); if (L->index_bw_extra >= 100) { if (L->index_bw_extra - 100 > bw) bw = L->index_bw_extra - 100; } else bw += L->index_bw_extra; if (bw > 32) bw = 32; ref_buf_u8(&val, (uint8_t)bw); ref_hybrid_encode(idx + vpos, pv, bw, L->index_form, &val); }
                 else if (L->value_encoding == ENC_PLAIN) put_plain(c, vpos, pv, &val);
                 else put_other_encoding(c, L->value_encoding, vpos, pv, &val);
                 ref_buf comp; ref_buf_init(&comp); ref_page_header h; memset(&h, 0, sizeof h);
